@@ -325,7 +325,27 @@ def run(ck):
         rows, xrows = judge(seqs)
         return seqs, rows, xrows, err
 
-    results = vlib.pmap(shard, range(nshards)) + vlib.pmap(walk_shard, range(nshards))
+    # corpus of past failures first (kept as regression cases)
+    corpus_results, seq_mods = [], {}
+    cdir = os.path.join(vlib.VERIF, "corpus", "C05")
+    for fn in sorted(os.listdir(cdir)) if os.path.isdir(cdir) else []:
+        txt = open(os.path.join(cdir, fn)).read()
+        m = [l.split(":", 1)[1].split() for l in txt.splitlines() if l.startswith("# modules:")]
+        cm = [os.path.join(vlib.REPO, x) for x in (m[0] if m else ["test/test.xm"])]
+        rc, text, err = run_text(exe, ["replay", os.path.join(cdir, fn), wav] + cm, timeout=300)
+        seqs = split_sequences(text)
+        rows, xrows = judge(seqs)
+        for s in seqs:
+            seq_mods[s["id"]] = cm
+        corpus_results.append((seqs, rows, xrows, err))
+    ck.note("corpus_cases", len(corpus_results))
+
+    results = corpus_results + vlib.pmap(shard, range(nshards)) + vlib.pmap(walk_shard, range(nshards))
+
+    def mods_of(s):
+        if s["id"] in seq_mods:
+            return seq_mods[s["id"]]
+        return mods[:1] + mods[:3] if s["id"].startswith("w") else mods
 
     cells, classes = {}, {}
     stats = {"sequences": 0, "calls": 0, "calls_in_playing": 0, "crashes": 0, "spec_violations": 0, "correspondence_diffs": 0,
@@ -367,13 +387,13 @@ def run(ck):
                 calls = s["calls"][:k + 1]
                 if kind == "corr":
                     # the property itself holds on this case (the oracle said so): broken correspondence
-                    small = shrink(exe, wav, mods if not s["id"].startswith("w") else mods[:1] + mods[:3], calls, sig, budget=40)
+                    small = shrink(exe, wav, mods_of(s), calls, sig, budget=40)
                     ck.unproved("correspondence Api.step vs xmp_" + sig[5:], what + " ; shrunk replay: " + " | ".join(small))
                     continue
                 if ck._match_known(sig) is None:
-                    calls = shrink(exe, wav, mods if not s["id"].startswith("w") else mods[:1] + mods[:3], calls, sig)
+                    calls = shrink(exe, wav, mods_of(s), calls, sig)
                 ck.violation(sig, {"how": "python3 tools/check.py C05 --replay <this file>", "calls": calls,
-                                   "modules": mods if not s["id"].startswith("w") else mods[:1] + mods[:3], "stderr": err[-1500:] if kind == "crash" else ""},
+                                   "modules": mods_of(s), "stderr": err[-1500:] if kind == "crash" else ""},
                              what)
     if ck.cov["samples"] == [] and results:
         s0 = results[0][0][0]
